@@ -287,7 +287,49 @@ fn learned_choice_then_suffix(run: &Run) {
     );
 }
 
+/// Long words: validated spellings of the longest dictionary words (17 to 30 Latin letters), alone and followed by suffix
+/// keys.  Whatever the engine does differently beyond some length (a cut-off pattern, a skipped look-up) shows as an
+/// unjustified candidate or a missing joined form here; random and short guided bases never get that long.
+fn long_dictionary_words(run: &Run) {
+    let mut spellings: Vec<String> = vec![];
+    let mut seen = std::collections::HashSet::new();
+    for w in data().all_words.iter().filter(|w| w.chars().count() >= 10) {
+        if let Some(sp) = crate::gen::romanise_long(w).or_else(|| crate::gen::romanise_validated(w)) {
+            if (17..=30).contains(&sp.len()) && seen.insert(sp.clone()) {
+                spellings.push(sp);
+            }
+        }
+        if spellings.len() >= 4000 {
+            break;
+        }
+    }
+    // every length present, up to 40 spellings per length
+    let mut by_len: std::collections::BTreeMap<usize, Vec<String>> = Default::default();
+    for sp in spellings {
+        let v = by_len.entry(sp.len()).or_default();
+        if v.len() < run.tier.pick(40, 400) {
+            v.push(sp);
+        }
+    }
+    let items: Vec<String> = by_len.into_values().flatten().collect();
+    run.stats.lock().unwrap().count("long-dictionary-spellings", items.len() as u64);
+    run.exhaustive(
+        "validated-spellings-of-the-longest-dictionary-words-with-suffixes",
+        &items,
+        |_| mk_local(),
+        |sp, st, lo| {
+            for sfx in ["", "i", "gulo", "e", "r"] {
+                let c = Case { lead: String::new(), base: sp.clone(), suffix: sfx.to_string(), trail: String::new() };
+                checked(&c, lo, st)?;
+            }
+            st.label("long-dictionary-word-with-suffixes");
+            Ok(())
+        },
+    );
+}
+
 pub fn run(run: &Run) {
+    long_dictionary_words(run);
     learned_choice_then_suffix(run);
     user_list_edited(run);
     autocorrect_key_pairs(run);
